@@ -28,9 +28,11 @@ def Auth.name : Auth → String
   | .anonymous => "anonymous"
   | .username => "username"
 
-/-- one security configuration -/
+/-- one security configuration; the policy is an index into
+    `Gen.interopPolicies` / `Gen.asymRows` (same order, `C37_index_aligned`) so
+    that no string operation is on the evaluation path -/
 structure Config where
-  pol : String
+  pol : Nat
   /-- ua.MessageSecurityMode: 1 None, 2 Sign, 3 SignAndEncrypt -/
   mode : Nat
   /-- client key size in bits, 0 = no certificate / key configured -/
@@ -39,81 +41,99 @@ structure Config where
   auth : Auth
   deriving Repr, DecidableEq
 
+def policyInfo (i : Nat) : Option Gen.InteropPolicy := Gen.interopPolicies[i]?
+def findRow (i : Nat) : Option AsymRow := Gen.asymRows[i]?
+def polName (i : Nat) : String := ((policyInfo i).map (·.name)).getD "?"
+def polIndex (name : String) : Option Nat := Gen.interopPolicies.findIdx? (·.name == name)
+def polIsNone (i : Nat) : Bool := ((policyInfo i).map (·.isNone)).getD false
+
 def Config.show (c : Config) : String :=
-  s!"{c.pol},{c.mode},{c.cbits},{c.sbits},{c.auth.name}"
+  s!"{polName c.pol},{c.mode},{c.cbits},{c.sbits},{c.auth.name}"
 
 /-! ### The finite table -/
 
 def keySizes : List Nat := Gen.testKeys.map (·.1)
 
+def inRange (r : Int × Int) (bits : Nat) : Bool :=
+  decide (r.1 ≤ (bits : Int)) && decide ((bits : Int) ≤ r.2)
+
 /-- Part 7: is a key of `bits` bits allowed for the policy? -/
 def keyAllowed (pol : String) (bits : Nat) : Bool :=
   match Spec.keyBits pol with
-  | some (lo, hi) => decide (lo ≤ (bits : Int)) && decide ((bits : Int) ≤ hi)
+  | some r => inRange r bits
   | none => true
+
+def enumFrom {α} : Nat → List α → List (Nat × α)
+  | _, [] => []
+  | i, x :: xs => (i, x) :: enumFrom (i + 1) xs
 
 /-- every supported policy × its modes × every committed key size Part 7 allows on
     each side × the user token types that need no external credentials
     (policy None: anonymous only — the server advertises no username token
     without a secured policy; with and without certificates configured) -/
 def configTable : List Config :=
-  Gen.interopPolicies.flatMap fun p =>
+  (enumFrom 0 Gen.interopPolicies).flatMap fun (i, p) =>
+    let range := Spec.keyBits p.name
     p.modes.flatMap fun m =>
-      match Spec.keyBits p.name with
-      | none => [⟨p.name, m, 0, 0, .anonymous⟩, ⟨p.name, m, 2048, 2048, .anonymous⟩]
-      | some _ =>
+      match range with
+      | none => [⟨i, m, 0, 0, .anonymous⟩, ⟨i, m, 2048, 2048, .anonymous⟩]
+      | some r =>
         keySizes.flatMap fun cb => keySizes.flatMap fun sb =>
-          if keyAllowed p.name cb && keyAllowed p.name sb then
-            [⟨p.name, m, cb, sb, .anonymous⟩, ⟨p.name, m, cb, sb, .username⟩]
+          if inRange r cb && inRange r sb then
+            [⟨i, m, cb, sb, .anonymous⟩, ⟨i, m, cb, sb, .username⟩]
           else []
 
 /-! ### Server: advertised endpoints (`initEndpoints`) -/
 
+/-- a `UserTokenPolicy`: token type and `SecurityPolicyURI` (`none` = the URI of
+    policy None, `some i` = policy `i`). The Go code identifies policies by the
+    string `PolicyID = lower(type ++ "_" ++ policy)`, see `policyIDString`;
+    these strings are pairwise distinct (`C37_policy_ids_distinct`), so the
+    duplicate check on (type, policy) is the duplicate check on the string. -/
 structure Token where
-  policyID : String
   typ : Auth
-  /-- `UserTokenPolicy.SecurityPolicyURI` (short name) -/
-  secPol : String
+  secPol : Option Nat
   deriving Repr, DecidableEq
 
 structure Endpoint where
-  pol : String
+  pol : Nat
   mode : Nat
   tokens : List Token
   deriving Repr, DecidableEq
 
 def lower (s : String) : String := s.map Char.toLower
 
+def policyIDString (t : Token) : String :=
+  lower (t.typ.name ++ "_" ++ (match t.secPol with | none => "None" | some i => polName i))
+
 /-- the two nested loops over `enabledAuth` × `enabledSec` with the duplicate check -/
-def tokensFor (enabledSec : List (String × Nat)) (enabledAuth : List Auth) : List Token :=
+def tokensFor (enabledSec : List (Nat × Nat)) (enabledAuth : List Auth) : List Token :=
   enabledAuth.foldl (fun acc auth =>
     enabledSec.foldl (fun acc authSec =>
-      let secPol := if auth = .anonymous then "None" else authSec.1
-      if auth ≠ .anonymous ∧ authSec.1 = "None" then acc        -- `continue`
+      let secPol : Option Nat := if auth = .anonymous ∨ polIsNone authSec.1 then none else some authSec.1
+      if auth ≠ .anonymous ∧ polIsNone authSec.1 then acc          -- `continue`
       else
-        let policyID := lower (auth.name ++ "_" ++ secPol)
-        if acc.any (·.policyID = policyID) then acc               -- `dup`
-        else acc ++ [⟨policyID, auth, secPol⟩]) acc) []
+        let tok : Token := ⟨auth, secPol⟩
+        if acc.any (· == tok) then acc                              -- `dup`
+        else acc ++ [tok]) acc) []
 
-def serverEndpoints (enabledSec : List (String × Nat)) (enabledAuth : List Auth) : List Endpoint :=
+def serverEndpoints (enabledSec : List (Nat × Nat)) (enabledAuth : List Auth) : List Endpoint :=
   enabledSec.map fun sec => ⟨sec.1, sec.2, tokensFor enabledSec enabledAuth⟩
 
 /-! ### Client: endpoint and token selection -/
 
-def selectEndpoint (eps : List Endpoint) (pol : String) (mode : Nat) : Option Endpoint :=
+def selectEndpoint (eps : List Endpoint) (pol : Nat) (mode : Nat) : Option Endpoint :=
   eps.find? fun e => e.pol = pol ∧ e.mode = mode
 
-/-- `SecurityFromEndpoint`: first token of the wanted type; result = (policy id, AuthPolicyURI) -/
-def securityFromEndpoint (ep : Endpoint) (auth : Auth) : Option (String × String) :=
-  (ep.tokens.find? (·.typ = auth)).map fun t =>
-    (t.policyID, if t.secPol ≠ "" then t.secPol else ep.pol)
+/-- `SecurityFromEndpoint`: first token of the wanted type; result = AuthPolicyURI
+    (the token's SecurityPolicyURI is never empty in `initEndpoints`) -/
+def securityFromEndpoint (ep : Endpoint) (auth : Auth) : Option (Option Nat) :=
+  (ep.tokens.find? (·.typ = auth)).map (·.secPol)
 
 /-! ### Keys -/
 
-def findRow (pol : String) : Option AsymRow := Gen.asymRows.find? (·.name == pol)
-
 /-- `uapolicy.Asymmetric(pol, local, remote)` returns an algorithm; `none` = nil key -/
-def accepts (pol : String) (localBits remoteBits : Option Nat) : Bool :=
+def accepts (pol : Nat) (localBits remoteBits : Option Nat) : Bool :=
   match findRow pol with
   | none => false
   | some row =>
@@ -153,8 +173,6 @@ def asymSecure (H n sigLen k ptPad encPad : Int) : Secured :=
 /-- header length of an OPN chunk: 12 + (4+|uri|) + (4+|cert|) + (4+|thumbprint|) -/
 def opnHeaderLen (uriLen certLen thumbLen : Nat) : Int := 12 + 12 + uriLen + certLen + thumbLen
 
-def policyInfo (pol : String) : Option Gen.InteropPolicy := Gen.interopPolicies.find? (·.name == pol)
-
 /-- the secured OpenSecureChannel request (client → server) -/
 def opnRequest (c : Config) : Option Secured := do
   let p ← policyInfo c.pol
@@ -179,7 +197,7 @@ def opnResponse (c : Config) : Option Secured := do
       (sizeOfBits c.sbits) (sizeOfBits c.cbits) row.ptPad row.encPad)
 
 /-- `EncryptUserPassword`: length of the encrypted secret `len ‖ password ‖ serverNonce` -/
-def passwordCipherLen (tokenPol : String) (sbits pwLen : Nat) : Option Int := do
+def passwordCipherLen (tokenPol : Nat) (sbits pwLen : Nat) : Option Int := do
   let row ← findRow tokenPol
   if row.scheme = .none then pure pwLen else
   let k := sizeOfBits sbits
@@ -227,7 +245,7 @@ def connect (c : Config) : Stage :=
   | some ep =>
     match securityFromEndpoint ep c.auth with
     | none => .tokenNotAdvertised
-    | some (_, authPolicy) =>
+    | some authPolicy =>
       let secured := decide (c.mode ≠ 1)
       let ck : Option Nat := if secured then some c.cbits else none
       let sk : Option Nat := if secured then some c.sbits else none
@@ -240,10 +258,12 @@ def connect (c : Config) : Stage :=
       else if !fitsOne (opnResponse c) then .opnResponseBad
       else if c.auth = .username then
         -- EncryptUserPassword(AuthPolicyURI, …): Asymmetric(AuthPolicyURI, clientKey, serverKey)
-        if authPolicy = "None" then .ok
-        else if !accepts authPolicy (if c.cbits = 0 then none else some c.cbits) (some c.sbits) then .passwordRefused
-        else if (passwordCipherLen authPolicy c.sbits 1).isNone then .passwordRefused
-        else .ok
+        match authPolicy with
+        | none => .ok                                             -- policy None: the password travels in clear
+        | some ap =>
+          if !accepts ap (if c.cbits = 0 then none else some c.cbits) (some c.sbits) then .passwordRefused
+          else if (passwordCipherLen ap c.sbits 1).isNone then .passwordRefused
+          else .ok
       else .ok
 
 end Opcua.Interop
